@@ -4,7 +4,7 @@
    extracted inductive datatypes. *)
 From Strcase Require Import Base Utf8 Fold Spec FoldTables Impl Impl2 Impl3 Impl4 Impl5 Impl6 Impl7 Kernels.
 From Strcase Require X86.
-From StrcaseGen Require Consts AsmProg.
+From StrcaseGen Require Consts AsmProg Oracle.
 From Coq Require Import Extraction ExtrOcamlBasic.
 Extraction Language OCaml.
 
@@ -91,13 +91,13 @@ Definition i_last_index_rune_str := Impl5.lastIndexRune (fold_map T121) (to_uppe
 Definition i_last_index_rune_byt := Impl5.lastIndexRune (fold_map T121) (to_upper_lower T121) Byt.
 (* Index: amd64 configuration and the portable one; thresholds as regenerated from the source *)
 Definition i_Index_str_a := Impl6.Index true cutover_amd64 fold121 lower_str (fold_map T121) (fold_map_excl T121) (to_upper_lower T121)
-  StrcaseGen.Consts.str_maxBruteForce StrcaseGen.Consts.str_maxLen StrcaseGen.Consts.str_primeRK Str.
+  StrcaseGen.Consts.str_maxBruteForce StrcaseGen.Consts.str_maxLen StrcaseGen.Consts.str_primeRK StrcaseGen.Consts.str_nativeMax StrcaseGen.Oracle.rt_maxlen_min Str.
 Definition i_Index_byt_a := Impl6.Index true cutover_amd64 fold121 lower_byt (fold_map T121) (fold_map_excl T121) (to_upper_lower T121)
-  StrcaseGen.Consts.byt_maxBruteForce StrcaseGen.Consts.byt_maxLen StrcaseGen.Consts.byt_primeRK Byt.
+  StrcaseGen.Consts.byt_maxBruteForce StrcaseGen.Consts.byt_maxLen StrcaseGen.Consts.byt_primeRK StrcaseGen.Consts.byt_nativeMax StrcaseGen.Oracle.rt_maxlen_min Byt.
 Definition i_Index_str_c := Impl6.Index false cutover_arm64 fold121 lower_str (fold_map T121) (fold_map_excl T121) (to_upper_lower T121)
-  StrcaseGen.Consts.str_maxBruteForce StrcaseGen.Consts.str_maxLen StrcaseGen.Consts.str_primeRK Str.
+  StrcaseGen.Consts.str_maxBruteForce StrcaseGen.Consts.str_maxLen StrcaseGen.Consts.str_primeRK StrcaseGen.Consts.str_nativeMax StrcaseGen.Oracle.rt_maxlen_min Str.
 Definition i_Index_byt_c := Impl6.Index false cutover_arm64 fold121 lower_byt (fold_map T121) (fold_map_excl T121) (to_upper_lower T121)
-  StrcaseGen.Consts.byt_maxBruteForce StrcaseGen.Consts.byt_maxLen StrcaseGen.Consts.byt_primeRK Byt.
+  StrcaseGen.Consts.byt_maxBruteForce StrcaseGen.Consts.byt_maxLen StrcaseGen.Consts.byt_primeRK StrcaseGen.Consts.byt_nativeMax StrcaseGen.Oracle.rt_maxlen_min Byt.
 Definition i_brute_str := Impl6.bruteForceIndexUnicode fold121 lower_str (fold_map_excl T121) (to_upper_lower T121) Str.
 Definition i_brute_byt := Impl6.bruteForceIndexUnicode fold121 lower_byt (fold_map_excl T121) (to_upper_lower T121) Byt.
 Definition i_rk_str := Impl6.indexRabinKarpUnicode fold121 lower_str StrcaseGen.Consts.str_primeRK Str.
